@@ -29,6 +29,8 @@ CLAUSE = {
 K_DECL = 'C09-replaced-declaration-keeps-parent'
 K_PROP = 'C09-removed-property-keeps-parent'
 K_PARENT = 'C09-rule-parent-not-maintained'
+K_SHAREDB = 'C09-shared-declaration-block'
+K_SHAREDP = 'C09-shared-property'
 KNOWN_OF_CLAUSE = {'gonedecl': K_DECL, 'goneprop': K_PROP, 'parent': K_PARENT}
 
 
@@ -177,7 +179,17 @@ class Oracle:
         attributed only while their witness still reproduces on the tree under test (probed at start): once the
         fixes are in, a regression is a violation."""
         f = KNOWN_OF_CLAUSE.get(k[0])
-        return f if f in self.active_known else None
+        if f in self.active_known:
+            return f
+        # a contained object handed in a second time: the block / property is held twice and names one holder
+        if k[0] == 'link' and k[2] == 'style.parentRule':
+            r = st.tracked.get(k[1])
+            if r is not None and id(r._style) in st.shared_blocks:
+                return K_SHAREDB
+        if (k[0] == 'link' and k[2] == 'property.parent' and k[1] in st.shared_props) or (
+                k[0] == 'goneprop' and k[1] in st.shared_props):
+            return K_SHAREDP
+        return None
 
     def check_index(self, st, op, out, pre, ops, raising):
         t = op[0]
